@@ -244,3 +244,42 @@ func (g *G) Flat() (flat []float64, ends []int, endss [][]int) {
 	}
 	return
 }
+
+// Cover is the smallest layout that covers all given layouts (XYZ+XYM = XYZM).
+func Cover(ls []geom.Layout) geom.Layout {
+	max := geom.NoLayout
+	for _, l := range ls {
+		switch {
+		case (l == geom.XYZ && max == geom.XYM) || (l == geom.XYM && max == geom.XYZ):
+			max = geom.XYZM
+		case l > max:
+			max = l
+		}
+	}
+	return max
+}
+
+// NewCollection builds a collection model; fixed != NoLayout fixes the layout (SetLayout),
+// otherwise Layout is the cover of the members' layouts.
+func NewCollection(fixed geom.Layout, kids ...*G) *G {
+	g := &G{Kind: Collection, Kids: kids, Fixed: fixed}
+	g.RecomputeLayout()
+	return g
+}
+
+// RecomputeLayout sets Layout of a collection from Fixed or the members.
+func (g *G) RecomputeLayout() {
+	if g.Kind != Collection {
+		return
+	}
+	if g.Fixed != geom.NoLayout {
+		g.Layout = g.Fixed
+		return
+	}
+	var ls []geom.Layout
+	for _, k := range g.Kids {
+		k.RecomputeLayout()
+		ls = append(ls, k.Layout)
+	}
+	g.Layout = Cover(ls)
+}
